@@ -181,14 +181,29 @@ impl GenerationPass for AvailableValuePass {
                 if let Some((reg, reg_value)) = node.gen_reg_value() {
                     out_reg_n.insert(reg, reg_value);
                 }
+                let mut seeds = AvailableValueMap::new();
                 if node.is_handler_function_entry() {
-                    out_reg_n.extend(Register::all_writable_set().into_available_values());
+                    seeds.extend(Register::all_writable_set().into_available_values());
                 }
                 if node.is_function_entry() {
-                    out_reg_n.extend(Register::callee_saved_set().into_available_values());
+                    seeds.extend(Register::callee_saved_set().into_available_values());
                 }
                 if node.is_program_entry() {
-                    out_reg_n.extend(Register::sp_ra_set().into_available_values());
+                    seeds.extend(Register::sp_ra_set().into_available_values());
+                }
+                // The entry of a function can also be the target of a jump inside that
+                // function (a loop back to the function's label): the registers then
+                // arrive as the jump left them, so only what holds on both ways in is known.
+                let reached_from_own_body = node.is_function_entry_with_func().is_some_and(|func| {
+                    node.prevs()
+                        .iter()
+                        .any(|x| visited.contains(x) && x.functions().iter().any(|f| *f == func))
+                });
+                if reached_from_own_body {
+                    seeds &= &node.reg_values_in();
+                    out_reg_n = seeds;
+                } else {
+                    out_reg_n.extend(seeds);
                 }
 
                 // out_memory[n] = (gen_memory[n] if we know the location of the stack pointer) U in_memory[n]
